@@ -171,6 +171,7 @@ func checkC06(r *Run) {
 	msgOwner, okm := fieldOfLocalCopy(stripConv(sp.handle.Call.Args[len(sp.handle.Call.Args)-1]), "Message")
 	r.Check(okm && msgOwner == ssa.Value(reqParam), "reply-identity", "handler: Handle receives the request's own message", sp.handle.Pos(), "the handler is invoked with a message other than the one that was sent")
 	r.Check(!inLoop(sp.handle) && len(findCalls(h, "invoke p9p.Handler.Handle")) == 1, "reply-identity", "handler: Handle is called exactly once per request", sp.handle.Pos(), "the handler can be invoked more than once for one request")
+	handlerRunsUnderRequestContext(r, sp, "handler-ctx")
 	nResp := 0
 	for _, c := range findCalls(h, "p9p.newFcall", "p9p.newErrorFcall") {
 		nResp++
@@ -529,6 +530,7 @@ func checkC07(r *Run) {
 		return
 	}
 	r.SawFn(fnName(sp.serve))
+	handlerRunsUnderRequestContext(r, sp, "handler-ctx")
 	// (1) the flush clause
 	var ta *ssa.TypeAssert
 	eachInstr(sp.serve, func(in ssa.Instruction) {
@@ -954,4 +956,65 @@ func checkReplyBufferFresh(r *Run, rule string) {
 		})
 	}
 	r.Floor(rule, n, 1, "Rread literals in the dispatcher")
+}
+
+// handlerRunsUnderRequestContext: the context handed to Handler.Handle is the per-request context — the one whose
+// cancel function is recorded in the tag table — so that a flush (and the shutdown) actually interrupts this
+// request's handler. Structurally: Handle's context argument is a parameter (or captured variable) of the handler
+// goroutine that the go statement binds to the result of the request's own context.WithCancel.
+func handlerRunsUnderRequestContext(r *Run, sp *serveParts, rule string) {
+	h := sp.handler
+	ctxArg := sp.handle.Call.Args[0]
+	// the WithCancel results in serve
+	var ctxVals []ssa.Value
+	for _, wc := range findCalls(sp.serve, "context.WithCancel") {
+		if v := resultN(wc, 0); v != nil {
+			ctxVals = append(ctxVals, v)
+		}
+	}
+	isReqCtx := func(v ssa.Value) bool {
+		for _, cv := range ctxVals {
+			if v == cv {
+				return true
+			}
+		}
+		return false
+	}
+	ok := false
+	switch x := ctxArg.(type) {
+	case *ssa.Parameter:
+		for i, prm := range h.Params {
+			if prm == x && i < len(sp.goSite.Call.Args) && isReqCtx(sp.goSite.Call.Args[i]) {
+				ok = true
+			}
+		}
+	case *ssa.FreeVar:
+		if mc, isMC := sp.goSite.Call.Value.(*ssa.MakeClosure); isMC {
+			for i, fv := range h.FreeVars {
+				if fv == x && i < len(mc.Bindings) && isReqCtx(mc.Bindings[i]) {
+					ok = true
+				}
+			}
+		}
+	case *ssa.UnOp:
+		// a captured cell holding the request context
+		if fv, isFV := x.X.(*ssa.FreeVar); isFV {
+			if mc, isMC := sp.goSite.Call.Value.(*ssa.MakeClosure); isMC {
+				for i, f2 := range h.FreeVars {
+					if f2 == fv && i < len(mc.Bindings) {
+						if a, isA := mc.Bindings[i].(*ssa.Alloc); isA {
+							for _, rf := range referrers(a) {
+								if st, isSt := rf.(*ssa.Store); isSt && st.Addr == ssa.Value(a) && isReqCtx(st.Val) {
+									ok = true
+								}
+							}
+						}
+					}
+				}
+			}
+		}
+	}
+	r.Check(ok, rule, "handler: Handle runs under the request's own cancellable context", sp.handle.Pos(),
+		"the handler is invoked with a context other than the per-request one whose cancel func is in the tag table: a flush (or the shutdown) cancels a context the handler is not listening to")
+	r.Floor(rule, len(ctxVals), 1, "per-request context.WithCancel in serve")
 }
